@@ -205,6 +205,35 @@ func buildListChange(k *listKind, w string, variant int, oneLine bool) *gen.Chan
 	if bare {
 		variant = 0
 	}
+	if variant == 3 && k.Sep == "," {
+		// all elements (several elisions) on ONE context line; only the marker is added
+		c := &gen.Change{Kind: k.PatKind, Schema: "c04-" + k.Name}
+		c.Meta = append(c.Meta, k.Meta...)
+		if strings.Contains(w, "x") {
+			c.Meta = append(c.Meta, gen.MetaVar{Name: "x", Kind: k.XKind})
+		}
+		if strings.Contains(w, "y") {
+			c.Meta = append(c.Meta, gen.MetaVar{Name: "y", Kind: k.XKind})
+		}
+		var els []string
+		d := 0
+		for i := 0; i < len(w); i++ {
+			if w[i] == 'D' {
+				d++
+				els = append(els, fmt.Sprintf("‹%d:%s›", d, k.Ctx))
+			} else {
+				els = append(els, k.Elem[w[i]])
+			}
+		}
+		for _, h := range strings.Split(k.Head(0), "\n") {
+			c.Lines = append(c.Lines, gen.L(' ', h))
+		}
+		c.Lines = append(c.Lines, gen.L(' ', "  "+strings.Join(els, ", ")+","), gen.L('+', "  "+k.Elem['z']+","))
+		for _, t := range k.Tail {
+			c.Lines = append(c.Lines, gen.L(' ', t))
+		}
+		return c
+	}
 	c := &gen.Change{Kind: k.PatKind, Schema: "c04-" + k.Name}
 	c.Meta = append(c.Meta, k.Meta...)
 	if strings.Contains(w, "x") {
@@ -342,6 +371,9 @@ func runC04(ctx *core.Ctx, idx int) *core.Result {
 		}
 		if k.Implicit {
 			layouts = append(layouts, layout{false, 2})
+		}
+		if k.Sep == "," && nd >= 2 {
+			layouts = append(layouts, layout{false, 3})
 		}
 	}
 	if nd == 1 && !strings.Contains(k.Head(0), "\n") {
